@@ -360,9 +360,17 @@ class Effects:
             if v is None or _fresh_expr(v):
                 return True
             if isinstance(v, ast.Call) and isinstance(v.func, (ast.Name, ast.Attribute)):
+                if isinstance(v.func, ast.Name) and v.func.id == "cls" and g.kind == "classmethod":
+                    return True   # a new instance
                 d = self.program.resolve_expr(g.module, v.func)
+                if isinstance(d, Class):
+                    return True   # a new instance
                 if isinstance(d, Func):
                     return self.returns_fresh(d, _stack + (id(g),))
+                if isinstance(v.func, ast.Attribute) and isinstance(v.func.value, ast.Name) and v.func.value.id == "cls" and g.cls is not None:
+                    r = g.cls.lookup(self.program, v.func.attr)
+                    if r is not None and r[1] == "method":
+                        return self.returns_fresh(r[2], _stack + (id(g),))
                 return False
             if isinstance(v, ast.Name) and v.id not in params and depth < 3:
                 vals = binds.get(v.id)
@@ -373,10 +381,47 @@ class Effects:
         cache[id(g)] = res
         return res
 
+    def registry_sources(self):
+        """Functions that hand out bundled registry data: registry.get and, to a fixpoint, every module-level function or property
+        that returns (part of) what such a function returned without building a container of its own (today _get_bban_spec and the
+        `spec` properties - found by what they return, not by their names)."""
+        if getattr(self, "_sources", None) is not None:
+            return self._sources
+        sources = {"schwifty.registry.get"}
+        self._sources = sources
+        changed = True
+        rounds = 0
+        while changed and rounds < 6:
+            changed = False
+            rounds += 1
+            for f in self.funcs:
+                if f.qualname in sources or f.qualname.startswith("schwifty.registry."):
+                    continue
+                nodes = self.own_nodes(f)
+                rets = [n.value for n in nodes if isinstance(n, ast.Return) and n.value is not None]
+                if not rets:
+                    continue
+                tainted = self._registry_tainted(f, nodes)
+                for v in rets:
+                    if _fresh_expr(v):
+                        continue
+                    root = v
+                    while isinstance(root, (ast.Subscript, ast.Attribute)):
+                        root = root.value
+                    hit = isinstance(root, ast.Name) and root.id in tainted
+                    if not hit and isinstance(root, ast.Call) and isinstance(root.func, (ast.Name, ast.Attribute)):
+                        d = self.program.resolve_expr(f.module, root.func)
+                        hit = isinstance(d, Func) and d.qualname in sources
+                    if hit:
+                        sources.add(f.qualname)
+                        changed = True
+                        break
+        return sources
+
     def _registry_tainted(self, f, nodes):
         """Local names bound (transitively) to data handed out by registry.get / the spec accessors."""
         prog = self.program
-        sources = {"schwifty.registry.get", "schwifty.bban._get_bban_spec"}
+        sources = self._sources if getattr(self, "_sources", None) is not None else self.registry_sources()
         tainted = set()
 
         def is_source(expr):
@@ -386,7 +431,8 @@ class Effects:
                     if isinstance(d, Func) and d.qualname in sources:
                         return True
                     # builders of fresh containers cut the taint
-                if isinstance(n, ast.Attribute) and n.attr == "spec" and isinstance(n.ctx, ast.Load):
+                if isinstance(n, ast.Attribute) and isinstance(n.ctx, ast.Load) and \
+                        (n.attr == "spec" or any(p.qualname in sources for p in self.props_by_name.get(n.attr, ()))):
                     return True
             return False
 
@@ -399,6 +445,15 @@ class Effects:
                 d = prog.resolve_expr(f.module, expr.func)
                 if isinstance(d, Func) and d.qualname not in sources and self.returns_fresh(d):
                     return True
+                if isinstance(d, Class):
+                    return True
+                fn = expr.func
+                if isinstance(fn, ast.Name) and fn.id == "cls" and f.kind == "classmethod":
+                    return True
+                if isinstance(fn, ast.Attribute) and isinstance(fn.value, ast.Name) and fn.value.id in ("cls", "self") and f.cls is not None:
+                    r = f.cls.lookup(prog, fn.attr)
+                    if r is not None and r[1] == "method" and r[2].qualname not in sources and r[2].kind != "property" and self.returns_fresh(r[2]):
+                        return True
             return False
 
         changed = True
